@@ -124,6 +124,7 @@ def execute(sc):
       sigs.add(sig)
       viols.append({'clause': clause, 'signature': sig, 'message': msg})
 
+  fedsim._ALG_CACHE.clear()   # fresh algorithm objects per scenario (replayability under hidden state)
   pop = fedsim.make_population(Rng(sc['pop_seed']).sub('pop'), sc['n_clients'], spec['d'], num_domains=nd)
   ids = sorted(pop)
   g_init = Rng(sc['init_seed']).sub('init')
